@@ -14,6 +14,16 @@ CHECKS = {
         note="Trusted: the structural chunk splitter/encoder in harness/proj/rtmpchunk.go; payload lengths and "
              "timestamps are boundary pools, not all 2^24 x 2^32 values.",
         ref="6/C08"),
+    "C09": dict(
+        technique="TLA+ spec TsPack (acceptor FrameOK/PsiOK + reference packetiser, TLC exhaustive over the frame "
+                  "space) + TLC trace validation of records parsed from lal Frame.Pack/PackPat/PackPmt output",
+        text="TLC enumerates the frame space (every length 1..400/1200 x key x pts/dts x pid x incoming cc) and checks the "
+             "reference packetiser against the acceptor; every enumerated frame (plus follow-up frames on the same PID "
+             "and big lengths around 184-byte multiples) is packed by lal, parsed by an independent TS reader and the "
+             "records are decided by the same acceptor in TLC, including CRC-32/MPEG-2 recomputed in TLA+.",
+        note="Trusted: the independent TS/PES/PSI reader harness/proj/ts.go; lal's constant 63000-tick PTS delay is a "
+             "spec constant.",
+        ref="6/C09"),
 }
 
 NOT_APPLICABLE = {}
